@@ -99,6 +99,7 @@ RAISE = {
     'TO': lambda who: TimeoutError(f'handler-raised timeout {who}'),
     'KE': lambda who: KeyError(f'boom {who}'),
     'RT': lambda who: RuntimeError(f'boom {who}'),
+    'ITO': lambda who: TimeoutError(f'inner timeout {who}'),  # sync handlers: plain TimeoutError
 }
 
 
@@ -437,6 +438,13 @@ def make_handler(w: World, hi: int, hspec: dict):
                         await do_await(me, tag)
                     pend = []
                 elif k == 'raise':
+                    if op[1] == 'ITO':
+                        # the handler's own inner timeout expires: a TimeoutError chained from a CancelledError
+                        try:
+                            await asyncio.wait_for(asyncio.sleep(3600), 0.03125)
+                        except TimeoutError as ex:
+                            w.raised[me] = ex
+                            raise
                     ex = RAISE[op[1]](list(me))
                     w.raised[me] = ex
                     raise ex
